@@ -925,6 +925,43 @@ def directed_sample(ctx):
         if errs or not lasts or lasts[-1] != 4 or 1 not in lasts or 3 not in lasts or lasts != sorted(lasts):
             ctx.failure("latest-lost-wakeup:nested-result-below", "source -> latest -> %s -> two awaiting consumers; arrivals 1 (idle), 2 and 3 (while busy), 4 (idle): "
                         "the consumers received %r (expected 1, then 3 - or 2 and 3 -, then 4)%s" % (below, got, "; raised " + errs[0] if errs else ""), case)
+    # (4) the very same object arrives again while it is being delivered, another element in between (a, b, a): the newest arrival is
+    # `a` once more and must be delivered after the consumer becomes free
+    for mode in ("awaiting", "sync"):
+        got = []
+
+        async def main(loop, mode=mode, got=got):
+            src = Stream(asynchronous=True, loop=IOLoop.current())
+            lat = src.latest()
+            gates = []
+
+            async def consumer(x):
+                got.append(x)
+                if mode == "awaiting":
+                    fut = loop.create_future()
+                    gates.append(fut)
+                    await fut
+            s_ = lat.sink(consumer)
+            a, b = ["a"], ["b"]
+            src.emit(a)
+            await vloop.settle(loop)
+            src.emit(b)
+            src.emit(a)
+            await vloop.settle(loop)
+            for _ in range(4):
+                while gates:
+                    gates.pop(0).set_result(None)
+                    await vloop.settle(loop)
+                await vloop.settle(loop)
+            got[:] = ["a" if x is a else "b" if x is b else repr(x) for x in got]
+            del s_
+        vloop.run(main)
+        case = {"directed": "same-object-again", "consumer": mode}
+        ctx.case(case, nontrivial=True)
+        ctx.count("directed:same-object-again")
+        if len(got) < 2 or got[0] != "a" or got[-1] != "a":
+            ctx.failure("latest-lost-wakeup:same-object-again", "latest with a %s consumer; arrivals a, then (while a is handled) b and the SAME object a again: "
+                        "delivered %r - the element received last (a) must be the one delivered last" % (mode, got), case)
     # (2)
     src = Stream(asynchronous=False)
     lat = src.latest()
